@@ -175,9 +175,12 @@ func (i Branch) String() string {
 }
 
 func (i Branch) adjust(offset int, state *GenState) SearchInstruction {
+	// relocate a copy: the stored pattern is relocated again by every later reference
+	branches := make([]int, len(i.Branches))
 	for idx := range i.Branches {
-		i.Branches[idx] += offset
+		branches[idx] = i.Branches[idx] + offset
 	}
+	i.Branches = branches
 	return i
 }
 
